@@ -243,6 +243,49 @@ def forced(mw=2, reusable=False, queued=3):
              ops)
 
 
+def forced_with_callbacks(mw=1, reusable=False):
+    """Forced shutdown while pending futures carry done-callbacks that re-enter the executor
+    (retry by submit, shutdown)."""
+    ops = [NEW, sub("g", "gate"), sub("q0", "ok", 1), sub("q1", "ok", 2), sub("q2", "ok", 3),
+           ["callback", "g", "resubmit"], ["callback", "q0", "resubmit"],
+           ["callback", "q1", "shutdown"], ["callback", "q2", "ok"]]
+    if reusable:
+        ops += [["reuse", dict(max_workers=mw, kill_workers=True, reuse=False)],
+                sub("n", "ok", 5), ["result", "n"], shutdown(True)]
+    else:
+        ops += [["shutdown", True, True]]
+    return P(f"forced-callbacks-w{mw}-r{reusable}", pool("reusable" if reusable else "plain", mw), ops)
+
+
+def reuse_in_callback(old=2, new=3, kind="grow"):
+    """A done-callback (manager thread) calls get_reusable_executor with another size."""
+    return P(f"cb-reuse-{old}to{new}", pool("reusable", old),
+             [NEW, sub("a", "ok", 1), ["callback", "a", "reuse", dict(max_workers=new)],
+              sub("b", "ok", 2), WAIT, ["sleep", 0.01], sub("c", "ok", 3), ["result", "c"],
+              shutdown(True)])
+
+
+def resize_vs_callback_submit(old=1, new=3):
+    """One thread resizes while a running job's done-callback submits again."""
+    return P(f"resize-vs-cb-submit-{old}to{new}", pool("reusable", old),
+             [NEW, sub("g", "gate"), ["callback", "g", "resubmit"], ["sleep", 0.01],
+              ["release", "g"], WAIT, shutdown(True)],
+             [["reuse", dict(max_workers=new)], sub("t", "ok", 7), ["result", "t"]])
+
+
+def interrupted_resize(old=3, new=1):
+    """With warnings as errors the resize of a busy executor is interrupted (UserWarning);
+    asked again once the job is done it must really happen."""
+    keys = [f"g{i}" for i in range(old)]
+    ops = [NEW, sub("busy", "gate"), ["expect_inside", 1],
+           ["reuse", dict(max_workers=new)],        # raises: resize with running jobs
+           ["release", "busy"], ["result", "busy"],
+           ["reuse", dict(max_workers=new)]]
+    ops += [sub(k, "gate") for k in keys] + [["expect_inside", new]]
+    ops += [["release", k] for k in keys] + [WAIT, shutdown(True)]
+    return P(f"interrupted-resize-{old}to{new}", pool("reusable", old, None, werror=True), ops)
+
+
 def shutdown_in_callback(kind="shutdown", mw=2, queued=2):
     """A done-callback shuts the executor down (it runs in the manager thread)."""
     ops = [NEW, sub("a", "ok", 1), ["callback", "a", kind]]
